@@ -141,14 +141,14 @@ class ExchangeClf(object):
     """The RF link as a tag object sees it (C16): every exchange() answers with
     arbitrary bytes or fails with one of the three transient error kinds.
     Ghost lists record what was sent and how each attempt ended."""
-    OK, TIMEOUT, TRANSMISSION, PROTOCOL = 0, 1, 2, 3
+    OK, TIMEOUT, TRANSMISSION, PROTOCOL, BROKEN = 0, 1, 2, 3, 4
 
     def __init__(self):
         self.sent = []
         self.outcomes = []
         self.answers = []
 
-    maxkind = 3      # sequence contracts restrict the failures to timeouts (maxkind = 1) to keep the paths few
+    maxkind = 4      # sequence contracts restrict the failures to timeouts (maxkind = 1) to keep the paths few
     gone = False     # a sense() that found nothing leaves the frontend without a target
 
     def exchange(self, data, timeout):
@@ -164,6 +164,10 @@ class ExchangeClf(object):
             raise nfc.clf.TransmissionError("transmission")
         if kind == 3:
             raise nfc.clf.ProtocolError("protocol")
+        if kind == 4:
+            # the fourth documented CommunicationError: the RF field is gone (the udp driver reports a peer's
+            # RFOFF this way on the initiator side too; Device.send_cmd_recv_rsp documents CommunicationError)
+            raise nfc.clf.BrokenLinkError("rf off")
         rsp = nondet_bytearray(0, None)
         self.answers.append(bytes(rsp))
         return rsp
